@@ -22,13 +22,13 @@ claims = {
  'C15': ("Option/Unit JSON methods relative to an assumed contract of encoding/json (JSONFaithful): Some(v) and None round-trip through MarshalJSON/UnmarshalJSON, None and Unit encode as the literal null, UnmarshalJSON on arbitrary bytes never panics, reports an error for a nil target and leaves the target unchanged on error. Not covered: @fp.Json structs generated by gombok (generator output, see C07).", "§5 C15"),
  'C16': ("lazy.Run computes the denotation Rec_den of an Eval program (loop invariant, partial correctness); Done/Call/TailCall constructors, bind law den(e.FlatMap f) = den(f(den e)) and Map/Map2 by explicit induction step lemmas; Memoize/Call run their thunk at most once (trace) relative to the trusted sync.Once contract. Not covered: stack-space bound of the trampoline (resource property, not expressible), TailCallN family.", "§5 C16"),
  'C20': ("protocol obligations for every iterator constructor/combinator with a step lemma: HasNext idempotent and effect-free on the abstract state, Next after true HasNext returns the head and advances, Next on exhaustion panics; zero-value Iterator behaves as empty in every method; Duplicate/Span/Partition by bounded stand-ins over all schedules of six pulls.", "§5 C20"),
+ 'C06': ("scenario lemmas for every combinator of package future and every method of fp.Future over promises completed in every relevant order (before/after the combinator is built, earlier/later operand first) under the default FIFO executor modelled by Spawned/RunSpawned and a ghost synchronous executor: the result is not completed and no user function runs before a needed source completes; once the needed sources are complete and the queue has run, the result is completed and its Value equals the Try-level expression (first failure left to right, that source's error unchanged); the user-callback trace is exact (suppliers/continuations never before their predecessors succeed, never after a failure); re-completing has no effect; fail-fast on an earlier failure; Apply/Func panic capture. Schemas 3..9 for LiftA/LiftM/Flap/Method/FlatMethod/Func/Unit, Applicative1..9 and Chain1..6 builders (caps stated in the contract file). Loop-based Sequence/Traverse families by bounded stand-ins (2-3 elements). Not covered: Chain7..9 builders (path budget), real goroutine scheduling of the executor (the queue model runs tasks one at a time), timeouts/Await.", "§5 C06"),
  'C14': ("defining equation of every arity-indexed family member (curried, hlist, product, as, tuples/labelled accessors, fp.Compose/Id/ApplyFirst/ApplyLast, fn1.Merge, unit.Func, option/try LiftA/LiftM/Map/FlatMap/Flap/Method, builders) at every arity present in the source, with pairwise distinct opaque types per position.", "§5 C14"),
  'C17': ("state-monad laws (put-get, get-put, put-put, modify = get>>=put.f), state threading through FlatMap and every generated combinator of statet (EqT of (result, state) pairs at an arbitrary initial state), failure semantics (state at the point of failure, continuation not called), and every Recover* variant of fp.StateT: success untouched, handler gets the error and the post-failure state, consistently across variants. FoldM/Concat/Sequence/Traverse (loops building closure chains) not covered.", "§5 C17"),
  'C18': ("each clone combinator (Given, Option, Tuple2..21, HCons/HNil, Generic, Ptr, Slice, Seq, GoMap) returns a fresh container whose components are the component instance applied to the input's components; equal copy under CloneIsCopy hypotheses.", "§5 C18"),
 }
 na_reason = {
  'C03': "HAMT node contracts (tier D) not built yet",
- 'C06': "future combinator lemmas (tier C) not built yet",
  'C07': "gombok output for all input packages: generator correctness over all programs is outside per-function contracts; corpus stand-in not built",
  'C08': "gombok @fp.Derive output for all input packages: outside per-function contracts; corpus stand-in not built",
  'C13': "byte-for-byte regeneration and map-order independence of three executables: no function contract expresses it (regeneration diff = testing / translation validation, a different technique)",
